@@ -22,8 +22,8 @@ OWNER = {
     "Crash": set(ALL_IDS), "Watchdog": {"C02"},
 }
 SNAPDIAG_OWNER = {"1": {"C02", "C05", "C06", "C18"}, "2": {"C02"}, "3": {"C06"}, "4": {"C02", "C04"}, "5": {"C18"}}
-PROP_OF_MONITOR = {"C01.order": "C01", "C01.exactly_once": "C01", "C01.not_before": "C01", "C03.gate": "C03", "C03.pending": "C03", "C01.cancel_after": "C01", "C03.once": "C03", "C04.nil": "C04",
-                   "C04": "C04", "C04.cause": "C04", "C05.shape": "C05", "C05.no_dup": "C05", "C06": "C06", "C06.final": "C06",
+PROP_OF_MONITOR = {"C01.order": "C01", "C01.exactly_once": "C01", "C01.not_before": "C01", "C03.gate": "C03", "C03.pending": "C03", "C01.cancel_after": "C01", "C03.once": "C03", "C04.nil": "C04", "C04.reports": "C04",
+                   "C04": "C04", "C04.cause": "C04", "C05.shape": "C05", "C05.no_dup": "C05", "C06": "C06", "C06.final": "C06", "C06.sub_entry": "C06",
                    "C18.final": "C18", "C18.bounded": "C18"}
 # monitors whose failures have one canonical key (a specific, documented defect shape)
 CANON_KEY = {"C06.final": "monitor-overwrites-final-state"}
